@@ -126,7 +126,7 @@ def run(check):
             meta.append((label, kind, src, src2, a1, a2))
     replies = common.ask_driver(requests, exe='drv_flow')
     dis = 0
-    hyp = {'pairs': 0, 'sameShape': 0, 'queries': 0, 'orderIso_true': 0}
+    hyp = {'pairs': 0, 'sameShape': 0, 'queries': 0, 'orderIso_true': 0, 'strict_orderIso_true': 0}
     for (label, kind, src, src2, a1, a2), rep in zip(meta, replies):
         if 'a1' not in rep:
             check.oblige('correspondence layout pairs', False, '%s: driver said %r' % (label, rep))
@@ -136,6 +136,7 @@ def run(check):
         hyp['sameShape'] += bool(rep['sameShape'] and rep['sameQueries'])
         hyp['queries'] += len(rep['orderIso'])
         hyp['orderIso_true'] += sum(1 for x in rep['orderIso'] if x)
+        hyp['strict_orderIso_true'] += sum(1 for x in rep.get('strictOrderIso', []) if x)
         m1 = [flowgraph.canon_model(x) for x in rep['a1']]
         m2 = [flowgraph.canon_model(x) for x in rep['a2']]
         if m1 != a1 or m2 != a2:
@@ -146,13 +147,13 @@ def run(check):
         if not (rep['sameShape'] and rep['sameQueries']) or not all(rep['orderIso']):
             # the hypotheses of C13_layouts fail for a genuine re-layout: the extractor positioned something by layout
             n_bad = sum(1 for x in rep['orderIso'] if not x)
-            check.oblige('hypotheses of C13_layouts hold for this layout pair (same shape, compared positions ordered alike)', False,
+            check.oblige('hypotheses of C13_layouts hold for this layout pair (same shape, queryIsoAt: the query position compares alike with every binding of its region)', False,
                          '%s (%s): sameShape=%s sameQueries=%s queries-not-order-isomorphic=%d\n%s\n-----\n%s'
                          % (label, kind, rep['sameShape'], rep['sameQueries'], n_bad, src[:800], src2[:800]))
     if dis == 0:
         check.oblige('correspondence layout pairs (model = implementation on both layouts)', True)
     if hyp['pairs'] and hyp['sameShape'] == hyp['pairs'] and hyp['orderIso_true'] == hyp['queries']:
-        check.oblige('hypotheses of C13_layouts hold for every layout pair (same shape, compared positions ordered alike)', True)
+        check.oblige('hypotheses of C13_layouts hold for every layout pair (same shape, queryIsoAt: the query position compares alike with every binding of its region)', True)
     check.cov['evaluations'] = pairs
     check.cov['distinct_nontrivial'] = len(nontrivial)
     check.cov['rule'] = ('programs: generated (harness/pygen.py), repo files (thorough: + 150 stdlib files); each against its ast.unparse normal '
